@@ -26,9 +26,10 @@ const (
 	KLTrim
 	KRTrim
 	KSuppress // combinator.SuppressError: same results, the error is dropped
+	KSingle   // combinator.Single: a one-child non-terminal is replaced by its child (only used where no reference semantics is needed)
 )
 
-var kindNames = []string{"Term", "Empty", "SeqOf", "SeqTry", "SeqFirstOrAll", "Any", "Choice", "Opt", "Many", "Many1", "SepBy", "SepBy1", "Ref", "LTrim", "RTrim", "SuppressError"}
+var kindNames = []string{"Term", "Empty", "SeqOf", "SeqTry", "SeqFirstOrAll", "Any", "Choice", "Opt", "Many", "Many1", "SepBy", "SepBy1", "Ref", "LTrim", "RTrim", "SuppressError", "Single"}
 
 func (k Kind) String() string { return kindNames[k] }
 
@@ -204,7 +205,7 @@ func exprNullable(nt []bool, e *Expr) bool {
 			}
 		}
 		return true
-	case KSeqTry, KSeqFirstOrAll, KMany1, KSepBy1, KLTrim, KRTrim, KSuppress:
+	case KSeqTry, KSeqFirstOrAll, KMany1, KSepBy1, KLTrim, KRTrim, KSuppress, KSingle:
 		return exprNullable(nt, e.Kids[0])
 	}
 	return true
@@ -222,7 +223,7 @@ func leftCorners(g *Grammar) []map[int]bool {
 			if h, ok := acc[e.NT]; !ok || (h && !hid) {
 				acc[e.NT] = hid
 			}
-		case KAny, KChoice, KOpt, KMany, KMany1, KLTrim, KRTrim, KSuppress:
+		case KAny, KChoice, KOpt, KMany, KMany1, KLTrim, KRTrim, KSuppress, KSingle:
 			for _, k := range e.Kids {
 				lc(k, hid, acc)
 			}
